@@ -7,7 +7,10 @@ patch=$dir/patch.diff; [ -f $dir/patch.rebased.diff ] && patch=$dir/patch.rebase
 extra=""
 case "$id/$mk" in
   C10/m1) extra="--features no-serde-warnings";;
-  C10/m3) extra="--no-default-features";;
+  C10/m3) if [ "${MUTROOT:-}" = /tmp/mut2 ]; then extra="--no-default-features --features no-serde-warnings"; else extra="--no-default-features"; fi;;
+  C08/m3) [ "${MUTROOT:-}" = /tmp/mut2 ] && extra="--features import-esm";;
+  C02/m3) [ "${MUTROOT:-}" = /tmp/mut2 ] && extra="--features no-serde-warnings";;
+  C12/m3) [ "${MUTROOT:-}" = /tmp/mut2 ] && extra="--features heapless-impl";;
   C04/m3) [ "${MUTROOT:-}" = /tmp/mut2 ] && extra="--features format";;
 esac
 cd $wt || exit 2
